@@ -320,7 +320,13 @@ class SecureSession(TCPTransport, _IPSecureTransportLayer):
             if mac_tr != response_mac_cbc:
                 raise IPSecureError("SessionResponse MAC verification failed.")
         # calculate session key
-        ecdh_shared_secret = self._private_key.exchange(self._peer_public_key)
+        try:
+            ecdh_shared_secret = self._private_key.exchange(self._peer_public_key)
+        except ValueError as err:
+            # public key of low order - the shared secret would be all zero
+            raise IPSecureError(
+                "SessionResponse public key can not be used for key exchange."
+            ) from err
         self._key = sha256_hash(ecdh_shared_secret)[:16]
         # generate SessionAuthenticate MAC
         authenticate_header_data = bytes.fromhex("06 10 09 53 00 18")
